@@ -190,3 +190,21 @@ NC_OUTS = [(1234, P2(4)), (2 ** 40, b"\x6a")]
 NONCANONICAL_TXS = ([build_tx_nc(2, NC_INS, NC_OUTS, 9, **{k: f}) for k in ("f_nin", "f_inscr", "f_nout", "f_outscr") for f in ("fd", "fe", "ff")]
                     + [build_tx_nc(2, NC_INS, NC_OUTS, 9, f, f, f, f) for f in ("fd", "fe", "ff")]
                     + [build_tx_nc(2, NC_INS, NC_OUTS, 9, "fd", "ff", "fe", "fd")])
+
+
+# state carried in the object that the preimage must not depend on: annotation sets for a 3-input transaction, relative to the
+# signed index i (o1, o2 = the other two), the call's value v and subscript; "-" = none
+def annotation_sets(i, v):
+    o1, o2 = (i + 1) % 3, (i + 2) % 3
+    other_v = (v + 1) % U64 if v != 12345 else 54321
+    return [
+        "%d,%d,-" % (i, other_v),                                   # satoshis on the signed input, different from the argument
+        "%d,%d,-" % (i, v),                                         # ... equal to the argument
+        "%d,%d,76a914+r:07:20+88ac" % (i, other_v),                 # satoshis and a locking script on the signed input
+        "%d,-,51ab52" % i,                                          # locking script only (with a separator inside)
+        "%d,%d,ac/%d,0,-" % (o1, other_v, o2),                      # only on the other inputs
+        "%d,0,6a/%d,18446744073709551615,ab/%d,%d,76a9" % (i, o1, o2, v),   # all three
+    ]
+
+
+ROUTES = ["d", "c", "j", "b", "a", "h"]
